@@ -360,6 +360,9 @@ namespace Pistache::Async
                 }
                 catch (const InternalRethrow& e)
                 {
+                    // Settling the derived promise races with a then() on it
+                    // from another thread: take its lock, as Rejection does
+                    std::unique_lock<std::mutex> guard(chain_->mtx);
                     PISTACHE_VERIF_YIELD("continuable.reject:before-derived-store");
                     chain_->exc   = e.exc;
                     chain_->state = State::Rejected;
@@ -446,6 +449,7 @@ namespace Pistache::Async
                 void doReject(const std::shared_ptr<CoreT<T>>& core) override
                 {
                     reject_(core->exc);
+                    std::unique_lock<std::mutex> guard(this->chain_->mtx);
                     PISTACHE_VERIF_YIELD("continuation.doReject:before-derived-walk");
                     for (const auto& req : this->chain_->requests)
                     {
@@ -457,6 +461,9 @@ namespace Pistache::Async
                 void finishResolve(Ret&& ret) const
                 {
                     typedef typename std::decay<Ret>::type CleanRet;
+                    // Settling the derived promise races with a then() on it
+                    // from another thread: take its lock, as Resolver does
+                    std::unique_lock<std::mutex> guard(this->chain_->mtx);
                     PISTACHE_VERIF_YIELD("continuation.finishResolve:before-derived-store");
                     this->chain_->template construct<CleanRet>(std::forward<Ret>(ret));
                     PISTACHE_VERIF_YIELD("continuation.finishResolve:before-derived-walk");
@@ -494,6 +501,7 @@ namespace Pistache::Async
                 void doReject(const std::shared_ptr<CoreT<void>>& core) override
                 {
                     reject_(core->exc);
+                    std::unique_lock<std::mutex> guard(this->chain_->mtx);
                     PISTACHE_VERIF_YIELD("continuation.doReject:before-derived-walk");
                     for (const auto& req : this->chain_->requests)
                     {
@@ -505,6 +513,9 @@ namespace Pistache::Async
                 void finishResolve(Ret&& ret) const
                 {
                     typedef typename std::remove_reference<Ret>::type CleanRet;
+                    // Settling the derived promise races with a then() on it
+                    // from another thread: take its lock, as Resolver does
+                    std::unique_lock<std::mutex> guard(this->chain_->mtx);
                     PISTACHE_VERIF_YIELD("continuation.finishResolve:before-derived-store");
                     this->chain_->template construct<CleanRet>(std::forward<Ret>(ret));
                     PISTACHE_VERIF_YIELD("continuation.finishResolve:before-derived-walk");
@@ -628,6 +639,7 @@ namespace Pistache::Async
 
                     void operator()(const PromiseType& val)
                     {
+                        std::unique_lock<std::mutex> guard(chainCore->mtx);
                         PISTACHE_VERIF_YIELD("chainer:before-derived-store");
                         chainCore->construct<PromiseType>(val);
                         PISTACHE_VERIF_YIELD("chainer:before-derived-walk");
@@ -655,6 +667,7 @@ namespace Pistache::Async
                     promise.then(std::move(chainer), [weakPtr](std::exception_ptr exc) {
                         if (auto core = weakPtr.lock())
                         {
+                            std::unique_lock<std::mutex> guard(core->mtx);
                             core->exc   = std::move(exc);
                             core->state = State::Rejected;
 
@@ -710,6 +723,7 @@ namespace Pistache::Async
 
                     void operator()(const PromiseType& val)
                     {
+                        std::unique_lock<std::mutex> guard(chainCore->mtx);
                         PISTACHE_VERIF_YIELD("chainer:before-derived-store");
                         chainCore->construct<PromiseType>(val);
                         PISTACHE_VERIF_YIELD("chainer:before-derived-walk");
@@ -756,6 +770,7 @@ namespace Pistache::Async
                     auto chainer = makeChainer(promise);
                     promise.then(std::move(chainer), [=](std::exception_ptr exc) {
                         auto core   = this->chain_;
+                        std::unique_lock<std::mutex> guard(core->mtx);
                         core->exc   = std::move(exc);
                         core->state = State::Rejected;
 
